@@ -261,6 +261,46 @@ fn run_bit(path: &str, h: u8, n: u32, data: &[u8], second: &[u8]) -> Option<(Str
     }
 }
 
+/// the built-in font *object* (its own name, as `BitFont::from_ansi_font_page` / `from_sauce_name` hand it out) embedded in an
+/// IcyDraw file in slot 0 and in higher slots, next to the stock font or alone: it must come back in the same slot
+fn run_builtin_object(page: usize, sauce_name: &Option<String>) -> Option<(String, Value)> {
+    let font = match sauce_name {
+        Some(n) => BitFont::from_sauce_name(n).ok()?,
+        None => BitFont::from_ansi_font_page(page).ok()?,
+    };
+    let want = font.convert_to_u8_data();
+    for (slot, with_stock) in [(0usize, false), (1, true), (3, true), (3, false), (100, true), (255, false)] {
+        let mut d = DocD::single(20, 3);
+        d.font_mode = 0;
+        d.fonts.push(FontD { slot, name: String::new(), height: 16, builtin: Some(page), data: vec![], sauce_name: sauce_name.clone() });
+        if with_stock {
+            d.fonts.push(FontD { slot: 0, name: String::new(), height: 16, builtin: Some(0), data: vec![], sauce_name: None });
+        }
+        d.layers[0].cells.push(doc::CellD { x: 0, y: 0, ch: 65, fg: 7, bg: 0, attr: 0, fp: slot as u16 });
+        d.layers[0].default_font_page = slot as u16;
+        let buf = doc::build(&d);
+        let bytes = match buf.to_bytes("icy", &save_opts(false, true)) {
+            Ok(b) => b,
+            Err(e) => return Some(("font|icy|builtin-object|save-error".into(), json!({"error": e.to_string(), "slot": slot, "font": font.name}))),
+        };
+        let back = match Buffer::from_bytes(std::path::Path::new("f.icy"), false, &bytes) {
+            Ok(b) => b,
+            Err(e) => return Some(("font|icy|builtin-object|load-error".into(), json!({"error": e.to_string(), "slot": slot, "font": font.name}))),
+        };
+        let Some(f) = back.get_font(slot) else {
+            return Some(("font|icy|builtin-object|missing-slot".into(), json!({"slot": slot, "font": font.name, "stock_font_in_slot_0": with_stock})));
+        };
+        if f.size != font.size || f.length != font.length || f.convert_to_u8_data() != want {
+            return Some((
+                "font|icy|builtin-object|differs".into(),
+                json!({"slot": slot, "font": font.name, "stock_font_in_slot_0": with_stock, "saved_size": [font.size.width, font.size.height], "loaded_size": [f.size.width, f.size.height],
+                       "saved_glyphs": font.length, "loaded_glyphs": f.length, "loaded_name": f.name}),
+            ));
+        }
+    }
+    None
+}
+
 fn build_tdf(d: &TdfD) -> TheDrawFont {
     let t = match d.ftype {
         0 => FontType::Outline,
@@ -564,6 +604,11 @@ impl C17 {
                     Some(n) => BitFont::from_sauce_name(n),
                     None => BitFont::from_ansi_font_page(*page),
                 };
+                if path == "icy" {
+                    if let Some(v) = run_builtin_object(*page, sauce_name) {
+                        return Some(v);
+                    }
+                }
                 match f {
                     Ok(f) => {
                         if f.size.width != 8 || f.length != 256 {
@@ -621,7 +666,7 @@ impl Prop for C17 {
         "C17"
     }
     fn rule(&self) -> &'static str {
-        "bitmap fonts (8 x 1..=32, 256 glyphs, 512 for PSF2; all-zero / all-one / random glyph bytes, some starting with a PSF magic number; every built-in page 0..=42 and every SAUCE font) are sent through PSF2 bytes, raw data (create_8, from_basic, from_bytes), the DCS CTerm:Font sequence fed to the real ANSI parser (also after an OSC 8 / OSC 4 / APS / sixel / macro / other font sequence on the same parser), and embedding in XBin (1 and 2 fonts), ADF, IDF and IcyDraw files written and loaded by the engine (with and without a custom palette in the same file, for IDF / ADF / one-font XBin also with the font in slot 3, every cell on page 3 and the stock font in slot 0, with and without a SAUCE record that names the stock font 'IBM VGA' while the embedded glyphs differ; IcyDraw also under empty, non-ASCII and long font names); size, glyph count and every glyph must be bit-identical. TheDraw fonts (outline/block/colour, 0..=94 glyphs up to 30x12, names 0..=12, spacing 0..=40, bundles of 1..=34) are written with as_tdf_bytes / create_font_bundle, checked by an independent TDF reader in the harness (writer side) and re-read with from_tdf_bytes (reader side, glyph table via hook H5). distinct_nontrivial = distinct (path, height, glyph count, data class) / (bundle size, glyph layout) fingerprints"
+        "bitmap fonts (8 x 1..=32, 256 glyphs, 512 for PSF2; all-zero / all-one / random glyph bytes, some starting with a PSF magic number; every built-in page 0..=42 and every SAUCE font) are sent through PSF2 bytes, raw data (create_8, from_basic, from_bytes), the DCS CTerm:Font sequence fed to the real ANSI parser (also after an OSC 8 / OSC 4 / APS / sixel / macro / other font sequence on the same parser), and embedding in XBin (1 and 2 fonts), ADF, IDF and IcyDraw files written and loaded by the engine (with and without a custom palette in the same file, for IDF / ADF / one-font XBin also with the font in slot 3, every cell on page 3 and the stock font in slot 0, with and without a SAUCE record that names the stock font 'IBM VGA' while the embedded glyphs differ; IcyDraw also under empty, non-ASCII and long font names, and every built-in page and SAUCE font also as the font object itself - under its own name - in slots 0, 1, 3, 100 and 255 of an IcyDraw file, with and without the stock font in slot 0); size, glyph count and every glyph must be bit-identical. TheDraw fonts (outline/block/colour, 0..=94 glyphs up to 30x12, names 0..=12, spacing 0..=40, bundles of 1..=34) are written with as_tdf_bytes / create_font_bundle, checked by an independent TDF reader in the harness (writer side) and re-read with from_tdf_bytes (reader side, glyph table via hook H5). distinct_nontrivial = distinct (path, height, glyph count, data class) / (bundle size, glyph layout) fingerprints"
     }
     fn meta(&self, ctx: &Ctx) -> Value {
         json!({"floor_evaluations": 1000, "floor_distinct": ctx.tier.pick(800u64, 5000u64),
